@@ -1,7 +1,7 @@
 SPECIFICATION Spec
 CONSTANTS
- MaxTok = 7
- TokSet = {1, 2, 3, 4, 5, 6, 7, 8}
+ MaxTok = 8
+ TokSet = {1, 2, 3, 5, 6, 7}
 ACTION_CONSTRAINT Emit
 INVARIANTS NoDotDot TwoFormulations Idempotent SegmentsSafe SplitOK Shrinks
 CHECK_DEADLOCK FALSE
